@@ -51,7 +51,7 @@ def exc_class(ck, an):
             if isinstance(n, ast.ExceptHandler):
                 names = handler_names(n)
                 if names is None or any(x in ("Exception", "BaseException", "EndOfEpisodeError") for x in names):
-                    ck.check(f.short == "TradingEnv.step", "EXC", "S3.only-step-catches-the-signal", f.short, f"{f.module.relpath}:{n.lineno}", "only TradingEnv.step catches the end-of-episode signal",
+                    ck.check(all(g.short == "TradingEnv.step" for g in an.attributed(f)), "EXC", "S3.only-step-catches-the-signal", f.short, f"{f.module.relpath}:{n.lineno}", "only TradingEnv.step catches the end-of-episode signal",
                              f"{f.short} has a handler for {names or 'everything'}: an insolvency raised below it would be swallowed", construct="except " + (ast.unparse(n.type) if n.type else ""))
 
 
